@@ -1,4 +1,5 @@
 """C01 — each accepted connection reaches exactly one call of its listener's service (accept-loop side)."""
+import os
 from common import Stream
 from props.srvlib import (COMMON_META, bld_stream, gen_scripts, compare, shrink_ops, parse_case, parse_trace, env_ops_of,
                           first_fault_index, in_progress, settled_epilogue, undispatched)
@@ -182,6 +183,69 @@ def finding_key(case, impl, model):
         return "unparsable"
 
 
+def c01_wrk_pred(case, trace):
+    """worker side of C01 on the implementation trace of the stepped real ServerWorker (stream wrk01): every connection sent to the
+    worker reaches at most one service call, none after its guard was released (R<cid>: the guard of a connection is dropped — when
+    its service call ends, or unserved); and once the worker has taken a stop command up (the first poll after one was sent through
+    a still open stop channel) no further service call starts: what is still queued is released, not served.
+    Returns None or the reason."""
+    from props import wrkgen as g
+    main = g.main_part(trace)
+    if main.startswith(("PANIC", "CRASH", "HANG", "SKIPPED")):
+        return "harness: %s" % main[:40]
+    ops = [t for t in case.split(";", 1)[1].split(" ") if t]
+    segs = main.split("|")
+    if len(segs) != len(ops):
+        return None        # an unparsable / truncated trace is the comparison's business
+    called, released = {}, {}
+    stop_sent = stopping = stop_closed = False
+    for k, (op, seg) in enumerate(zip(ops, segs)):
+        if op == "p" and stop_sent:
+            stopping = True
+        for t in seg.split(" "):
+            if not t:
+                continue
+            if t[0] == "k" and "." in t:
+                cid = t.split(".")[1]
+                if cid in called:
+                    return "op %d (%s): connection %s reached a service call twice" % (k, op, cid)
+                if cid in released:
+                    return "op %d (%s): connection %s was served after it had been released" % (k, op, cid)
+                if stopping:
+                    return "op %d (%s): connection %s was served although the worker had taken up a stop: queued connections are released, not served" % (k, op, cid)
+                called[cid] = k
+            elif t[0] == "R" and t[1:].isdigit():
+                cid = t[1:]
+                if cid in released:
+                    return "op %d (%s): the guard of connection %s was released twice" % (k, op, cid)
+                released[cid] = k
+        if op == "y":
+            stop_closed = True      # the server side of the stop channel is gone: later stops cannot be delivered
+        if op in ("sg", "sf") and not stop_closed:
+            stop_sent = True
+    return None
+
+
+def wrk_stream(ctx):
+    """the worker side: the stepped real ServerWorker (harness h_worker / driver worker, shared with C06 and C07)"""
+    from props import wrkgen as g
+    import common
+    full = ctx.tier != "quick"
+    cases = g.c06_special(ctx.rng) + g.c06_random(ctx.rng, 3000 if not full else 100000) + g.c07_random(ctx.rng, 2000 if not full else 60000, stops=True)
+    hbin, _ = common.build_harness("h_worker")
+    common.build_driver("worker")
+    st = Stream("wrk01", "wrk", cases, compare=lambda i, m: g.main_part(i) == g.main_part(m),
+                monitor=lambda c, i, m: c01_wrk_pred(c, i) is None,
+                nontrivial=lambda c, m: "k" in g.main_part(m) and ("sg" in c or "sf" in c), shrink=g.shrink_case,
+                finding_key=lambda c, i, m: "wrk:" + (c01_wrk_pred(c, i) or "trace-mismatch").split(":")[-1].strip()[:50], timeout=900,
+                describe="%d stepped runs of the real ServerWorker with stop commands (graceful/forced) overtaking queued connections, "
+                         "readiness scripts and restarts: at most one service call per connection, nothing served once a stop was taken up, "
+                         "released means never served" % len(cases))
+    st.impl_cmd = [hbin, "wrk"]
+    st.model_cmd = [os.path.join(common.OCAML, "worker", "driver"), "wrk"]
+    return st
+
+
 def streams(ctx):
     n = 3000 if ctx.tier == "quick" else 80000
     flags = ["e", "ye", "cye", "cidye", "k", "ky", "kye", "kcye", "kciye", "kdy", "kcidyse", "kdyse", "cyse", "dyse"]
@@ -193,4 +257,5 @@ def streams(ctx):
                             "on the implementation trace: no id in two places, token = listener connected to, dispatched at most once and to the "
                             "worker holding it, no reappearance, departures only by completion/drain/kill, no gap in a listener's FIFO while a "
                             "worker lives, everything dispatched after settling" % n),
-            bld_stream(ctx, ("C01",), ["a", "ca", "cia", "k", "cka", "cb", "bx"], 80, 1500)]
+            bld_stream(ctx, ("C01",), ["a", "ca", "cia", "k", "cka", "cb", "bx"], 80, 1500),
+            wrk_stream(ctx)]
